@@ -20,6 +20,7 @@ RULE = (
     '; pass 6: minibatches with missing targets under both NaN policies; Cholesky parameter with arbitrary strict upper triangle'
     "; pass 7: a deep copy keeps its objective when the original trains on; mean-field q(u) (random, wide, best of the family) in both frames; N*ELBO against its dense definition (KL with its trace term) for every non-degenerate q(u)"
     "; pass 8: a held-out evaluation with autograd off before the parameters move; strategies with a declared jitter (0, 1e-3) compared tightly against the dense definition"
+    "; pass 9: NGD whose lr / num_data are set after construction (assignment, scheduler); multitask objectives on a non-interleaved q(f)"
 )
 REQUIRED = ["objective_matches_definition", "captured_terms_used", "elbo_below_evidence", "optimal_q_attains_titsias", "elbo_below_titsias", "ngd_one_step_reaches_optimum", "elbo_equals_dense_definition"]
 ASSUMPTIONS = ["Gaussian-likelihood bounds use the prior regularised by the strategy's jitter (jitter rule); the statement's NGD clause is restricted to NaturalVariationalDistribution"]
